@@ -51,6 +51,11 @@ class HGen:
                 return str(m)
             if c < 0.6:
                 return f"{p}.a{m}"
+            if c < 0.72:
+                # a name of the helper's OWN surroundings (module global / variable of the enclosing factory): frozen where the helper
+                # was defined
+                feats.add("helper-body-uses-captured-name")
+                return f"{p}.m{m}({r.choice(['HCUT0', 'HCUT1', 'HNAME'])}, {m})"
             return f"{p}.m{m}({r.choice(params)}.b, {m})"
         if k < 0.45:
             return f"({self.body(params, depth - 1, leafs, feats)} + {self.body(params, depth - 1, leafs, feats)})"
@@ -171,7 +176,7 @@ def gen_file(rnd):
     src = modgen.DS_HEADER
     if closure:
         # helpers captured through a closure instead of module globals
-        src += "def factory():\n"
+        src += "HCUT0 = 'decoy-global'\ndef factory():\n    HCUT0, HCUT1, HNAME = 30, -2.5, \"q'x\"\n"
         for h in leafs + tops:
             src += "".join("    " + ln + "\n" for ln in h["text"].rstrip("\n").split("\n"))
         for i, c in enumerate(cases):
@@ -179,6 +184,7 @@ def gen_file(rnd):
             src += f"    def py{i}():\n        return ({c['text']})\n"
         src += "    return locals()\n_ns = factory()\nglobals().update({k: v for k, v in _ns.items() if k.startswith(('case', 'py', 'h'))})\n"
     else:
+        src += "HCUT0, HCUT1, HNAME = 30, -2.5, \"q'x\"\n"
         for h in leafs + tops:
             src += h["text"]
         # history: a function whose LOCAL helpers carry the names of module-level helpers (other bodies); queries built there run
@@ -248,6 +254,11 @@ def run_file(ctx, rnd):
             got = probe.behaviour(probe.compile_lambda(lam, env))
         except Exception as e:
             got = frozenset([((), f"<compile/eval failed: {type(e).__name__}: {e}>")])
+        if got != expected and any("<raises" in r for _, r in expected):
+            # python itself raises for this call (a string default used as an object): there is no value to preserve, and which of
+            # several failing sub-expressions is reached first is not part of the property
+            ctx.count("not-judged:python-side-raises")
+            continue
         if got != expected:
             why = "unbound-name" if any("NameError" in r for _, r in got) else "different-value"
             ctx.violation(f"inlined-helper-misbehaves:{why}", f"{c['text']}: python calling the helpers gives {probe.describe(expected, 2)}, the recorded lambda {astx.unparse(lam)[:250]} gives {probe.describe(got, 2)} | helpers: {witness['helpers']}", witness)
